@@ -40,6 +40,7 @@ namespace net
     O_N8_DL = 1u << 14,
     O_N8_OV = 1u << 15,
     O_X = 1u << 16, // unexpected exception from the API
+    O_N11 = 1u << 19,  // unit propagation reached its fixpoint: no clause ever added or recorded is falsified or unit with its last literal still unassigned
     O_N10 = 1u << 18,  // a theory keeps listening to each of its literals that is not fixed at root level (structural: sat_core's binding map)
     O_N9_DL = 1u << 17 // DL: every hop of the stored shortest-path trees is an enforced constraint of exactly that weight (what explanations walk)
   };
@@ -141,6 +142,9 @@ namespace net
 
     static Run *self;
     static void hook(const smt::sat_core &, const std::vector<lit> &);
+    static void hook_new_clause(const smt::sat_core &, const std::vector<lit> &);
+    std::vector<std::vector<lit>> all_clauses; // every clause handed to new_clause (also from inside the constructs and the theories) or recorded
+    void check_fixpoint();
 
     // ---- helpers ----
     void tr(const std::string &s)
